@@ -6,6 +6,7 @@ import (
 	"fmt"
 	"math/rand"
 	"sort"
+	"strings"
 	"sync"
 
 	"github.com/pion/interceptor"
@@ -157,9 +158,14 @@ func (s *sink) Write(h *rtp.Header, p []byte, a interceptor.Attributes) (int, er
 
 func streamInfo(ids []int64, r *rand.Rand) *interceptor.StreamInfo {
 	info := &interceptor.StreamInfo{SSRC: r.Uint32()}
-	// interleave unrelated URIs
+	// interleave unrelated and look-alike URIs (only the exact transport-cc -01 URI negotiates the extension)
 	if r.Intn(2) == 0 {
 		info.RTPHeaderExtensions = append(info.RTPHeaderExtensions, interceptor.RTPHeaderExtension{URI: "urn:other", ID: 3})
+	}
+	if r.Intn(2) == 0 {
+		decoys := []string{uri[:len(uri)-1] + "2", uri + "x", strings.ToUpper(uri), uri[:len(uri)-3], " " + uri, ""}
+		info.RTPHeaderExtensions = append(info.RTPHeaderExtensions,
+			interceptor.RTPHeaderExtension{URI: decoys[r.Intn(len(decoys))], ID: 1 + r.Intn(14)})
 	}
 	for _, id := range ids {
 		info.RTPHeaderExtensions = append(info.RTPHeaderExtensions, interceptor.RTPHeaderExtension{URI: uri, ID: int(id)})
